@@ -150,9 +150,18 @@ def cargo_build(profile="dev", cfgs=("dashu_verif",), features=None, target_sub=
         tdir = os.path.join(CACHE, target_sub + "-alt-" + tag)
         os.makedirs(os.path.join(hdir, ".cargo"), exist_ok=True)
         man = open(os.path.join(HARNESS, "Cargo.toml")).read().replace('"/repo/', '"%s/' % REPO.rstrip("/"))
-        open(os.path.join(hdir, "Cargo.toml"), "w").write(man)
-        shutil.copy(os.path.join(HARNESS, "Cargo.lock"), os.path.join(hdir, "Cargo.lock"))
-        shutil.copy(os.path.join(HARNESS, ".cargo", "config.toml"), os.path.join(hdir, ".cargo", "config.toml"))
+        # several builds of one check may run at the same time (C19 builds its configurations in parallel):
+        # write the shadow files atomically and only when they change, so that no cargo reads a torn manifest
+        def _put(path, text):
+            if os.path.exists(path) and open(path).read() == text:
+                return
+            tmp = "%s.%d.tmp" % (path, os.getpid() * 1000 + (id(text) % 1000))
+            with open(tmp, "w") as f:
+                f.write(text)
+            os.replace(tmp, path)
+        _put(os.path.join(hdir, "Cargo.toml"), man)
+        _put(os.path.join(hdir, "Cargo.lock"), open(os.path.join(HARNESS, "Cargo.lock")).read())
+        _put(os.path.join(hdir, ".cargo", "config.toml"), open(os.path.join(HARNESS, ".cargo", "config.toml")).read())
         if not os.path.islink(os.path.join(hdir, "src")):
             os.symlink(os.path.join(HARNESS, "src"), os.path.join(hdir, "src"))
     t0 = time.time()
